@@ -46,9 +46,9 @@ package stream
 // C06 (output side): the stream_native printer. A failing write of a record or of a watermark line fails the callback
 // (and with it the query); a failing source and a failing Close of the format fail Run.
 //@ func (*NativeFormat).WriteRecord
-//@   ensures writeerr: lastres(Fprintf) != nil ==> result != nil
+//@   ensures writeerr: lastres(libFprintf) != nil ==> result != nil
 //@ func (*NativeFormat).WriteMeta
-//@   ensures writeerr: lastres(Fprintf) != nil ==> result != nil
+//@   ensures writeerr: lastres(libFprintf) != nil ==> result != nil
 //@ func (*OutputPrinter).Run
 //@   stream 1 step IN writeerr: lastres(WriteRecord) != nil ==> stepErr != nil
 //@   stream 1 step INM writeerr: lastres(WriteMeta) != nil ==> stepErr != nil
